@@ -1,6 +1,7 @@
 package main
 
 import (
+	"encoding/binary"
 	"bytes"
 	"fmt"
 
@@ -167,6 +168,16 @@ func buildSeeds(c *Ctx, withLarge bool) []seedFrame {
 		frame := append(pre, base0.frame...)
 		if pf, err := ref.ParseFrame(frame, ref.ParseOpts{EnforceBlockMax: true}); err == nil && bytes.Equal(pf.Content, base0.input) {
 			seeds = append(seeds, seedFrame{name: "skippable-prefix/" + base0.name, cfg: base0.cfg, input: base0.input, frame: frame, pf: pf})
+		}
+		// the same with 40000 bytes of user data (more than any internal copy buffer: a reader may be tempted
+		// to seek over it, and seeking past the end of a file or a bytes.Reader succeeds)
+		var big []byte
+		big = append(big, 0x5A, 0x2A, 0x4D, 0x18)
+		big = binary.LittleEndian.AppendUint32(big, 40000)
+		big = append(big, g.Bytes(40000)...)
+		frame2 := append(big, base0.frame...)
+		if pf, err := ref.ParseFrame(frame2, ref.ParseOpts{EnforceBlockMax: true}); err == nil && bytes.Equal(pf.Content, base0.input) {
+			seeds = append(seeds, seedFrame{name: "skippable-prefix-40K/" + base0.name, cfg: base0.cfg, input: base0.input, frame: frame2, pf: pf, large: true})
 		}
 	}
 	if withLarge {
